@@ -99,7 +99,8 @@ def r_cpu_helpers(e, R):
     rets = [n for n in func_nodes(af) if isinstance(n, ast.Return)]
     import re as _re
     allowed = {"len(os.sched_getaffinity(0))", "len(<psutil process>.cpu_affinity())", p}
-    got = {_re.sub(r"^len\(\w+\.cpu_affinity\(\)\)$", "len(<psutil process>.cpu_affinity())", norm(r.value)) for r in rets}
+    from .util import inline_locals as _inl
+    got = {_re.sub(r"^len\((\w+|psutil\.Process\(\))\.cpu_affinity\(\)\)$", "len(<psutil process>.cpu_affinity())", norm(_inl(e, af, r.value)) if r.value is not None else "None") for r in rets}
     R.check(got <= allowed and p in got and "len(os.sched_getaffinity(0))" in got, "R-CPU-HELPERS",
             "affinity helper returns len(sched_getaffinity(0)), len(psutil affinity) or the OS count", af.short, str(sorted(got)),
             f"the affinity helper returns {sorted(got - allowed)}", e.loc(af, af.node))
@@ -129,15 +130,26 @@ def r_cpu_helpers(e, R):
                 "the quotient is not quota/period (or floor instead of ceil): fractional limits such as 1.5 CPUs are rounded the wrong way",
                 e.loc(cg, r.ast))
         # guarded by quota > 0 and period > 0
-        gts = {}
-        for t in g.nodes:
-            if t.kind == "test" and isinstance(t.ast, ast.Compare) and len(t.ast.ops) == 1 and isinstance(t.ast.left, ast.Name) \
-                    and isinstance(t.ast.comparators[0], ast.Constant) and t.ast.comparators[0].value == 0 and isinstance(t.ast.ops[0], ast.Gt):
-                if g.on_branch(r, t, "T"):
-                    gts[t.ast.left.id] = True
-        R.check(gts.get(qv) and gts.get(pv), "R-CPU-HELPERS", "cgroup helper: ceil(quota/period) only when quota > 0 and period > 0", cg.short,
-                f"guards {sorted(gts)}", "a non-positive quota (cgroup v1 '-1' = unlimited) or period is used as a limit: cpu_count() collapses to 1 "
-                "or divides by zero", e.loc(cg, r.ast))
+        # (decided by evaluating the tests that control the return over sample values of the two integers: any spelling of the guard --
+        # `q > 0 and p > 0`, nested ifs, the De Morgan form with an early return -- gives the same table)
+        from .. import guards as _guards
+        ctl = [(t, "T" if g.on_branch(r, t, "T") else "F") for t in g.nodes if t.kind == "test" and (g.on_branch(r, t, "T") or g.on_branch(r, t, "F"))
+               and {x.id for x in ast.walk(t.ast) if isinstance(x, ast.Name)} & {qv, pv} and not any(isinstance(x, ast.Constant) and isinstance(x.value, str) for x in ast.walk(t.ast))]
+        reach_bad = None
+        try:
+            for qval in (-1, 0, 1, 3):
+                for pval in (-1, 0, 1, 3):
+                    env = {"Q": qval, "P": pval}
+                    taken = all(bool(_guards.eval_guard(t.ast, env, lambda x: "Q" if isinstance(x, ast.Name) and x.id == qv else "P" if isinstance(x, ast.Name) and x.id == pv else None))
+                                == (lab == "T") for t, lab in ctl)
+                    if taken and not (qval > 0 and pval > 0) and reach_bad is None:
+                        reach_bad = (qval, pval)
+        except _guards.Inconclusive as ex:
+            raise AnalysisError(f"cgroup helper: the guard of the quotient is not a term over quota and period: {ex}")
+        gts = sorted(norm(t.ast) for t, _ in ctl)
+        R.check(bool(ctl) and reach_bad is None, "R-CPU-HELPERS", "cgroup helper: ceil(quota/period) only when quota > 0 and period > 0", cg.short,
+                f"guards {gts}", "a non-positive quota (cgroup v1 '-1' = unlimited) or period is used as a limit: cpu_count() collapses to 1 "
+                "or divides by zero" + (f" (the quotient is reached with quota={reach_bad[0]}, period={reach_bad[1]})" if reach_bad else ""), e.loc(cg, r.ast))
         # both are converted with int() before the comparison
         conv = {n.targets[0].id for n in func_nodes(cg) if isinstance(n, ast.Assign) and isinstance(n.targets[0], ast.Name) and isinstance(n.value, ast.Call)
                 and norm(n.value.func) == "int"}
@@ -163,11 +175,18 @@ def r_cpu_helpers(e, R):
     v2 = [k for k, v in fvars.items() if v.endswith("cpu.max")]
     v1 = [k for k, v in fvars.items() if "cfs_" in v]
     if len(v2) != 1 or len(v1) != 2:
+        # the names may be literals used in place (or module constants, folded by the canonicaliser): fall back to the literal text
+        fvars = {v: v for v in lits}
+        v2 = [k for k in fvars if k.endswith("cpu.max")]
+        v1 = [k for k in fvars if "cfs_" in k]
+    if len(v2) != 1 or len(v1) != 2:
         raise AnalysisError("cgroup helper: file name variables not recognised")
-    exists = lambda nm: (lambda x: isinstance(x, ast.Call) and norm(x.func).endswith("path.exists") and x.args and isinstance(x.args[0], ast.Name) and x.args[0].id == nm)
-    opens = lambda nm: (lambda n: any(isinstance(c.func, ast.Name) and c.func.id == "open" and c.args and isinstance(c.args[0], ast.Name) and c.args[0].id == nm
+    def is_nm(x, nm):
+        return (isinstance(x, ast.Name) and x.id == nm) or (isinstance(x, ast.Constant) and x.value == nm)
+    exists = lambda nm: (lambda x: isinstance(x, ast.Call) and norm(x.func).endswith("path.exists") and x.args and is_nm(x.args[0], nm))
+    opens = lambda nm: (lambda n: any(isinstance(c.func, ast.Name) and c.func.id == "open" and c.args and is_nm(c.args[0], nm)
                                       for c in calls_in(n)) or (n.kind == "with_enter" and isinstance(n.ast.context_expr, ast.Call) and norm(n.ast.context_expr.func) == "open"
-                                                                and n.ast.context_expr.args and isinstance(n.ast.context_expr.args[0], ast.Name) and n.ast.context_expr.args[0].id == nm))
+                                                                and n.ast.context_expr.args and is_nm(n.ast.context_expr.args[0], nm)))
     dflt = lambda n: n.kind == "stmt" and isinstance(n.ast, ast.Assign) and isinstance(n.ast.value, ast.Constant) and n.ast.value.value == "max"
     SC.must(e, R, "R-CPU-HELPERS", cg, "cgroup v2 (cpu.max exists)", [(exists(v2[0]), "T")], opens(v2[0]), "reads cpu.max", "a cgroup v2 CPU limit is ignored: cpu_count() oversubscribes the container")
     for nm in v1:
@@ -189,7 +208,8 @@ def r_cpu_helpers(e, R):
             withs = [n for n in func_nodes(cg) if isinstance(n, ast.With)]
             for w_ in withs:
                 ce = w_.items[0].context_expr
-                fname = ce.args[0].id if isinstance(ce, ast.Call) and norm(ce.func) == "open" and ce.args and isinstance(ce.args[0], ast.Name) else None
+                fname = (ce.args[0].id if isinstance(ce.args[0], ast.Name) else ce.args[0].value if isinstance(ce.args[0], ast.Constant) else None) \
+                    if isinstance(ce, ast.Call) and norm(ce.func) == "open" and ce.args else None
                 if fname is None:
                     continue
                 for st in w_.body:
